@@ -1,5 +1,5 @@
 # replay of a bounded stand-in violation (C13): re-run native/c13_tdm.py
 import sys
-print("calls ('lock', 'space1', 'space1'): the program no longer runs: IndexError: list index out of range")
+print('delays=[2], leading identity bins per loop=[0]: entry k of the cropped samples is not the outcome of detected pulse k + 0: [-27.3, -28.8, -8.9, -6.1, 4.7] vs means [-28.3, -35.4, -22.4, -24.5, -12.4]')
 print('REPLAY-VIOLATION')
 sys.exit(1)
